@@ -1,12 +1,1090 @@
 package main
 
 import (
+	"bytes"
+	"fmt"
+	"sort"
+	"strconv"
+	"strings"
 	"time"
 
+	tcpip "github.com/brewlin/net-protocol/protocol"
+	"github.com/brewlin/net-protocol/protocol/network/ipv4"
+	"github.com/brewlin/net-protocol/protocol/network/ipv6"
+	"github.com/brewlin/net-protocol/protocol/transport/tcp"
+
 	"verif/engine"
+	"verif/ref"
+	"verif/shim/vtime"
 )
 
-// placeholder until the raw peer is built
-func rawJobsC01(tier string) []string                                           { return nil }
-func rawRunJob(r *engine.Result, job string, deadline time.Time) *engine.Result { return r }
-func rawReplay(er engine.EnvReplay) *engine.Violation                           { return nil }
+// ---------------------------------------------------------------------------------
+// One real stack S against a scripted raw peer P built only on the independent codec.
+// The peer keeps the tiny reference state it needs (its own sequence numbers, what it has
+// received at which sequence position, what it has advertised).
+// ---------------------------------------------------------------------------------
+
+type Raw struct {
+	w      *World
+	n      *Node
+	v6     bool
+	sAddr  []byte
+	pAddr  []byte
+	mon    *Monitor
+	seen   int // frames of w.All already decoded
+	ipID   uint16
+	MonErr error
+}
+
+func NewRaw(v6 bool, mtu int) *Raw {
+	w := NewWorld()
+	r := &Raw{w: w, v6: v6, mon: NewMonitor()}
+	r.n = w.AddNode(NodeCfg{Name: "S", V4: []tcpip.Address{addrA4}, V6: []tcpip.Address{addrA6}, MTU: uint32(mtu)})
+	if v6 {
+		r.sAddr, r.pAddr = []byte(addrA6), []byte(addrB6)
+	} else {
+		r.sAddr, r.pAddr = []byte(addrA4), []byte(addrB4)
+	}
+	return r
+}
+
+func (r *Raw) netProto() tcpip.NetworkProtocolNumber {
+	if r.v6 {
+		return ipv6.ProtocolNumber
+	}
+	return ipv4.ProtocolNumber
+}
+
+// InjectIP wraps a transport payload into an IP packet from the peer and injects it.
+func (r *Raw) InjectIP(proto uint8, payload []byte) {
+	var pkt []byte
+	if r.v6 {
+		pkt = ref.BuildIPv6(r.pAddr, r.sAddr, proto, 64, payload)
+	} else {
+		r.ipID++
+		pkt = ref.BuildIPv4(r.pAddr, r.sAddr, proto, r.ipID, 0, 0, 64, payload)
+	}
+	r.w.Inject(r.n, 1, r.netProto(), pkt, "", "")
+}
+
+// SendTCP injects one TCP segment from the peer.
+func (r *Raw) SendTCP(sport, dport uint16, seq, ack uint32, flags uint8, wnd uint16, opts, payload []byte) {
+	r.InjectIP(ref.ProtoTCP, ref.BuildTCP(sport, dport, seq, ack, flags, wnd, opts, payload, r.pAddr, r.sAddr))
+}
+
+// Collect decodes (and removes from the wire) every frame the stack emitted since the
+// last call; each goes through the frame monitor.
+func (r *Raw) Collect() []*Decoded {
+	var out []*Decoded
+	for _, f := range r.w.InFlight() {
+		r.w.Take(f)
+		d, err := r.mon.Check(f, []tcpip.Address{addrA4, addrA6})
+		if err != nil && r.MonErr == nil {
+			r.MonErr = fmt.Errorf("frame #%d: %v (bytes %x)", f.Seq, err, f.Data)
+		}
+		out = append(out, d)
+	}
+	return out
+}
+
+// ---------- the data-transfer scenario against the raw peer ----------
+
+type RawCfg struct {
+	V6       bool
+	MTU      int
+	Active   bool // stack connects (else the peer does)
+	PeerMSS  int  // -1 = no MSS option
+	PeerWS   int  // -1 = no window-scale option
+	PeerTS   bool
+	PeerSACK bool
+	PeerISS  uint32
+	StackISS uint32
+	PeerWnd  int   // initial window advertised by the peer (unscaled field value)
+	Writes   []int // application writes on the stack
+	PeerData []int // segments the peer sends (sizes)
+	Read     string
+	Devs     string // k ack placement, w window menu, h withhold ack, l lose segment (peer pretends it never arrived), o peer data reorder/overlap/dup, t early timer, a app-first, z zero window then reopen
+	Budget   int
+	Oracles  string // s stream+wire consistency (C01), w window/MSS (C04), r recovery/cwnd (C05), m monitor (C06)
+	Cubic    bool
+	SACK     bool // stack-side SACK enabled
+	RcvBuf   int
+	RTTms    int    // peer answers this many virtual ms after receiving (0 = immediately)
+	Silent   int    // peer stays silent for this many timeouts at the start of the data phase
+	Close    string // none | shut (stack shuts down its write side after writing)
+	PTB      int    // if >0: an ICMP "fragmentation needed" with this next-hop MTU is offered as a deviation (letter p)
+}
+
+func ParseRawCfg(s string) RawCfg {
+	c := RawCfg{MTU: 1500, Active: true, PeerMSS: 1460, PeerWS: -1, PeerISS: 7000, StackISS: 1000, PeerWnd: 65535, Read: "eager", Devs: "kwhl", Budget: 1, Oracles: "s", Close: "none"}
+	for _, kv := range strings.Split(s, ",") {
+		p := strings.SplitN(kv, "=", 2)
+		if len(p) != 2 {
+			continue
+		}
+		k, v := p[0], p[1]
+		atoi := func() int { n, _ := strconv.Atoi(v); return n }
+		switch k {
+		case "v6":
+			c.V6 = v == "1"
+		case "mtu":
+			c.MTU = atoi()
+		case "active":
+			c.Active = v == "1"
+		case "mss":
+			c.PeerMSS = atoi()
+		case "ws":
+			c.PeerWS = atoi()
+		case "ts":
+			c.PeerTS = v == "1"
+		case "psack":
+			c.PeerSACK = v == "1"
+		case "sack":
+			c.SACK = v == "1"
+		case "piss":
+			n, _ := strconv.ParseUint(v, 10, 32)
+			c.PeerISS = uint32(n)
+		case "iss":
+			n, _ := strconv.ParseUint(v, 10, 32)
+			c.StackISS = uint32(n)
+		case "pwnd":
+			c.PeerWnd = atoi()
+		case "w":
+			c.Writes = parseInts(v)
+		case "pd":
+			c.PeerData = parseInts(v)
+		case "read":
+			c.Read = v
+		case "devs":
+			c.Devs = v
+		case "b":
+			c.Budget = atoi()
+		case "or":
+			c.Oracles = v
+		case "cc":
+			c.Cubic = v == "cubic"
+		case "rcvbuf":
+			c.RcvBuf = atoi()
+		case "rtt":
+			c.RTTms = atoi()
+		case "silent":
+			c.Silent = atoi()
+		case "close":
+			c.Close = v
+		case "ptb":
+			c.PTB = atoi()
+		}
+	}
+	return c
+}
+
+const (
+	stackPort = 4321
+	peerPort  = 9999
+)
+
+type sentSeg struct {
+	seq   uint32
+	n     int
+	at    time.Duration
+	flags uint8
+	rtx   bool // the stack had sent this sequence range before
+}
+
+type rawRun struct {
+	cfg   RawCfg
+	r     *Raw
+	ch    *engine.Chooser
+	viol  *engine.Violation
+	trace []string
+	ep    tcpip.Endpoint
+	lst   tcpip.Endpoint
+
+	// handshake results
+	established bool
+	sIss        uint32 // stack's ISS as seen on the wire
+	sPort       uint16
+	sMSS        int // MSS the stack announced
+	sWS         int // window scale the stack announced (-1 none)
+	tsOK        bool
+	sackOK      bool
+	wsOK        bool
+	lastTSVal   uint32 // last TSval received from the stack
+	pTS         uint32
+
+	// peer send side
+	pSndNxt uint32
+	pData   []byte   // full peer->stack stream
+	pSegs   [][2]int // [off,len] segments still to send
+	pAcked  uint32   // highest ack received from the stack (absolute)
+	got     []byte   // bytes the stack's application has read
+	eof     bool
+	readErr string
+
+	// peer receive side (reference receiver)
+	wrote    []byte // bytes accepted by the stack's Write
+	chunks   [][]byte
+	rcvNxt   uint32 // absolute sequence number
+	ooo      map[uint32][]byte
+	wireByte map[uint32]byte // sequence position -> byte seen on the wire
+	recon    []byte          // reconstructed in-order stream
+	finSeen  bool
+
+	// what the peer has told the stack (C04 send-side oracle)
+	advAck  uint32 // highest ack sent
+	advEdge uint32 // right edge = ack + (wnd << peerShift) of the most recent advertisement delivered
+	haveAdv bool
+	maxEdge uint32
+	pmtu    int // path MTU told to the stack via ICMP (0 = none)
+	ptbSent bool
+	ptbAt   int // index into sent at which the ICMP was delivered
+
+	// what the stack has told the peer (C04 receive-side oracle)
+	sEdge     uint32
+	haveSEdge bool
+	sAckMax   uint32
+
+	// C05 bookkeeping
+	sent                   []sentSeg
+	dataSentBeforeFirstAck int
+	firstAckDelivered      bool
+	acksDelivered          int // ACKs delivered that acknowledged new data (segments acked counted separately)
+	segsAcked              int
+	dupAcksDelivered       int
+	timeoutsFired          int
+	earlyTimer             bool
+	lostOnce               map[uint32]bool
+	shut                   bool
+	states                 []uint64
+	pending                []pendingAck // delayed peer answers (RTT menu)
+	silentLeft             int
+	dupForUna              map[uint32]int // duplicate ACKs delivered per sndUna value
+	lastRTOat              time.Duration
+	hiRtx                  uint32 // highest sequence sent before the last timeout/recovery (RFC 6582 "recover")
+	haveHiRtx              bool
+	caps                   []string
+}
+
+type pendingAck struct {
+	due  time.Duration
+	send func()
+	name string
+}
+
+func (x *rawRun) fail(prop, kind, key, f string, a ...interface{}) {
+	if x.viol == nil {
+		x.viol = &engine.Violation{Property: prop, Kind: kind, Key: key, Detail: fmt.Sprintf(f, a...)}
+	}
+}
+func (x *rawRun) has(o byte) bool { return strings.IndexByte(x.cfg.Oracles, o) >= 0 }
+func (x *rawRun) dev(o byte) bool { return strings.IndexByte(x.cfg.Devs, o) >= 0 }
+
+func (x *rawRun) peerShift() uint {
+	if x.wsOK && x.cfg.PeerWS >= 0 {
+		s := x.cfg.PeerWS
+		if s > 14 {
+			s = 14
+		}
+		return uint(s)
+	}
+	return 0
+}
+
+func (x *rawRun) stackShift() uint {
+	if x.wsOK && x.sWS >= 0 {
+		return uint(x.sWS)
+	}
+	return 0
+}
+
+func (x *rawRun) synOpts() []byte {
+	var parts [][]byte
+	c := x.cfg
+	if c.PeerMSS >= 0 {
+		parts = append(parts, ref.OptMSS(uint16(c.PeerMSS)))
+	}
+	if c.PeerWS >= 0 {
+		parts = append(parts, ref.OptWS(uint8(c.PeerWS)))
+	}
+	if c.PeerTS {
+		x.pTS += 10
+		parts = append(parts, ref.OptTS(x.pTS, x.lastTSVal))
+	}
+	if c.PeerSACK {
+		parts = append(parts, ref.OptSACKPerm())
+	}
+	return ref.PadOpts(parts...)
+}
+
+func (x *rawRun) segOpts(sack []ref.SACKBlock) []byte {
+	var parts [][]byte
+	if x.tsOK {
+		x.pTS += 10
+		parts = append(parts, []byte{1, 1}, ref.OptTS(x.pTS, x.lastTSVal))
+	}
+	if len(sack) > 0 && x.sackOK {
+		parts = append(parts, []byte{1, 1}, ref.OptSACK(sack...))
+	}
+	return ref.PadOpts(parts...)
+}
+
+// sendAck sends a pure ACK from the peer with the given ack number and window field.
+func (x *rawRun) sendAck(ack uint32, wnd int, sack []ref.SACKBlock) {
+	if wnd > 65535 {
+		wnd = 65535
+	}
+	// an RFC-conforming peer never moves its right edge left
+	edge := ack + uint32(wnd)<<x.peerShift()
+	if x.haveAdv && ref.SeqLT(edge, x.maxEdge) {
+		need := (x.maxEdge - ack + (1 << x.peerShift()) - 1) >> x.peerShift()
+		if need > 65535 {
+			need = 65535
+		}
+		wnd = int(need)
+		edge = ack + uint32(wnd)<<x.peerShift()
+	}
+	isDup := x.haveAdv && ack == x.advAck
+	x.r.SendTCP(peerPort, x.sPort, x.pSndNxt, ack, ref.ACK, uint16(wnd), x.segOpts(sack), nil)
+	if !x.haveAdv || ref.SeqLT(x.maxEdge, edge) {
+		x.maxEdge = edge
+	}
+	if ref.SeqLT(x.advAck, ack) || !x.haveAdv {
+		if x.haveAdv {
+			// count whole segments newly acknowledged
+			for _, s := range x.sent {
+				end := s.seq + uint32(s.n)
+				if !s.rtx && s.n > 0 && ref.SeqLT(x.advAck, end) && ref.SeqLEQ(end, ack) {
+					x.segsAcked++
+				}
+			}
+		}
+		x.advAck = ack
+		x.firstAckDelivered = true
+		x.acksDelivered++
+	} else if isDup {
+		x.dupAcksDelivered++
+		x.dupForUna[ack]++
+	}
+	x.advEdge = edge
+	x.haveAdv = true
+}
+
+func newRawRun(cfg RawCfg, prefix []int) *rawRun {
+	x := &rawRun{cfg: cfg, ch: engine.NewChooser(prefix), ooo: map[uint32][]byte{}, wireByte: map[uint32]byte{}, lostOnce: map[uint32]bool{}, dupForUna: map[uint32]int{}, sWS: -1, pTS: 5000, silentLeft: cfg.Silent}
+	x.r = NewRaw(cfg.V6, cfg.MTU)
+	// 4-byte random reads in order: endpoint ts offset, ISS (active) ...
+	ScriptRand(0x01010101, cfg.StackISS, 0x02020202, cfg.StackISS)
+	s := x.r.n.S
+	if cfg.SACK {
+		must(s.SetTransportProtocolOption(tcp.ProtocolNumber, tcp.SACKEnabled(true)))
+	}
+	if cfg.Cubic {
+		must(s.SetTransportProtocolOption(tcp.ProtocolNumber, tcp.CongestionControlOption("cubic")))
+	}
+	if cfg.RcvBuf > 0 {
+		must(s.SetTransportProtocolOption(tcp.ProtocolNumber, tcp.ReceiveBufferSizeOption{Min: 1, Default: cfg.RcvBuf, Max: cfg.RcvBuf * 4}))
+	}
+	off := 0
+	for _, n := range cfg.Writes {
+		x.chunks = append(x.chunks, pattern(0x20, n, off))
+		off += n
+	}
+	off = 0
+	for _, n := range cfg.PeerData {
+		x.pData = append(x.pData, pattern(0xa0, n, off)...)
+		x.pSegs = append(x.pSegs, [2]int{off, n})
+		off += n
+	}
+	x.pSndNxt = cfg.PeerISS
+	return x
+}
+
+// handshake brings the connection up (no exploration here; C03 explores handshakes).
+func (x *rawRun) handshake() bool {
+	cfg := x.cfg
+	sk := x.r.n.NewSock(tcp.ProtocolNumber, x.r.netProto())
+	if cfg.Active {
+		x.ep = sk.EP
+		must(sk.EP.Bind(tcpip.FullAddress{Port: stackPort}, nil))
+		err := sk.EP.Connect(tcpip.FullAddress{Addr: tcpip.Address(x.r.pAddr), Port: peerPort})
+		if err != tcpip.ErrConnectStarted {
+			x.fail("C03", "connect", "connect-error", "Connect returned %v", err)
+			return false
+		}
+		x.r.w.Settle()
+		fr := x.r.Collect()
+		if len(fr) != 1 || fr[0].TCP == nil || fr[0].TCP.Flags != ref.SYN {
+			x.fail("C03", "handshake", "no-syn", "active open did not emit exactly one SYN (%d frames)", len(fr))
+			return false
+		}
+		syn := fr[0].TCP
+		x.noteSyn(syn)
+		x.pSndNxt = cfg.PeerISS + 1
+		x.rcvNxt = syn.Seq + 1
+		x.r.SendTCP(peerPort, x.sPort, cfg.PeerISS, syn.Seq+1, ref.SYN|ref.ACK, uint16(cfg.PeerWnd), x.synOpts(), nil)
+		x.noteAdv(syn.Seq+1, cfg.PeerWnd, true)
+		for _, d := range x.r.Collect() {
+			x.onStackFrame(d)
+		}
+	} else {
+		x.lst = sk.EP
+		must(sk.EP.Bind(tcpip.FullAddress{Port: stackPort}, nil))
+		must(sk.EP.Listen(4))
+		x.r.w.Settle()
+		x.sPort = stackPort
+		x.r.SendTCP(peerPort, stackPort, cfg.PeerISS, 0, ref.SYN, uint16(cfg.PeerWnd), x.synOpts(), nil)
+		fr := x.r.Collect()
+		if len(fr) != 1 || fr[0].TCP == nil || fr[0].TCP.Flags != ref.SYN|ref.ACK {
+			x.fail("C03", "handshake", "no-synack", "listener did not answer the SYN with exactly one SYN-ACK (%d frames)", len(fr))
+			return false
+		}
+		sa := fr[0].TCP
+		x.noteSyn(sa)
+		x.pSndNxt = cfg.PeerISS + 1
+		x.rcvNxt = sa.Seq + 1
+		x.sendAckRaw(sa.Seq+1, cfg.PeerWnd)
+		x.noteAdv(sa.Seq+1, cfg.PeerWnd, false)
+		ep, _, err := x.lst.Accept()
+		if err != nil {
+			x.fail("C03", "handshake", "no-accept", "Accept after a correct handshake returned %v", err)
+			return false
+		}
+		x.ep = ep
+	}
+	x.established = true
+	return true
+}
+
+func (x *rawRun) sendAckRaw(ack uint32, wnd int) {
+	x.r.SendTCP(peerPort, x.sPort, x.pSndNxt, ack, ref.ACK, uint16(wnd), x.segOpts(nil), nil)
+}
+
+func (x *rawRun) noteAdv(ack uint32, wndField int, syn bool) {
+	shift := x.peerShift()
+	if syn {
+		shift = 0 // the window field of a SYN segment is never scaled
+	}
+	x.advAck = ack
+	x.advEdge = ack + uint32(wndField)<<shift
+	x.maxEdge = x.advEdge
+	x.haveAdv = true
+}
+
+func (x *rawRun) noteSyn(t *ref.TCP) {
+	x.sIss = t.Seq
+	x.sPort = t.SrcPort
+	x.sMSS = 536
+	if t.Opts.HasMSS {
+		x.sMSS = int(t.Opts.MSS)
+	}
+	if t.Opts.HasWS {
+		x.sWS = int(t.Opts.WS)
+	}
+	x.wsOK = t.Opts.HasWS && x.cfg.PeerWS >= 0
+	x.tsOK = t.Opts.HasTS && x.cfg.PeerTS
+	x.sackOK = t.Opts.SACKPerm && x.cfg.PeerSACK
+	if t.Opts.HasTS {
+		x.lastTSVal = t.Opts.TSVal
+	}
+}
+
+// expected payload limit for a data segment (C04)
+func (x *rawRun) mssLimit(optLen int) int {
+	hdr := 20
+	if x.cfg.V6 {
+		hdr = 40
+	}
+	lim := x.cfg.MTU - hdr - 20 - optLen
+	pm := 536
+	if x.cfg.PeerMSS >= 0 {
+		pm = x.cfg.PeerMSS
+	}
+	if pm == 0 {
+		pm = 536
+	}
+	// the announced MSS counts payload + options
+	if pm-optLen < lim {
+		lim = pm - optLen
+	}
+	return lim
+}
+
+// onStackFrame is the peer's reference receiver + every per-segment oracle.
+func (x *rawRun) onStackFrame(d *Decoded) {
+	if d == nil || d.TCP == nil {
+		return
+	}
+	t := d.TCP
+	if t.Opts.HasTS {
+		x.lastTSVal = t.Opts.TSVal
+	}
+	if t.Flags&ref.RST != 0 {
+		return
+	}
+	n := len(t.Payload)
+	// --- C04 receive side: the stack's advertised right edge never moves left
+	if t.Flags&ref.ACK != 0 && t.Flags&ref.SYN == 0 {
+		edge := t.Ack + uint32(t.Window)<<x.stackShift()
+		if x.haveSEdge && ref.SeqLT(edge, x.sEdge) && x.has('w') {
+			retreat := x.sEdge - edge
+			key := "own-edge-retreat"
+			if x.stackShift() > 0 && retreat < 1<<x.stackShift() {
+				key = "own-edge-retreat-below-scale-unit"
+			}
+			x.fail("C04", "advertised-edge-retreats", key, "the stack's advertised right edge moved left by %d: previous ack+wnd = %d, now ack %d + (wnd %d << %d) = %d", retreat, x.sEdge-x.sIssPeerBase(), t.Ack-x.sIssPeerBase(), t.Window, x.stackShift(), edge-x.sIssPeerBase())
+		}
+		if !x.haveSEdge || ref.SeqLT(x.sEdge, edge) {
+			x.sEdge = edge
+		}
+		x.haveSEdge = true
+		if ref.SeqLT(x.pAcked, t.Ack) || x.pAcked == 0 {
+			x.pAcked = t.Ack
+		}
+	}
+	if n == 0 && t.Flags&ref.FIN == 0 {
+		return
+	}
+	seq := t.Seq
+	// --- C01 wire consistency: every byte at sequence position p equals written byte p
+	if x.has('s') {
+		for i := 0; i < n; i++ {
+			p := seq + uint32(i)
+			off := p - x.sIss - 1
+			if int(off) >= len(x.wrote) {
+				x.fail("C01", "wire-invented", "wire-invented", "segment seq+%d len %d carries stream offset %d but the application has only written %d bytes", seq-x.sIss, n, off, len(x.wrote))
+				break
+			}
+			if x.wrote[off] != t.Payload[i] {
+				x.fail("C01", "wire-mismatch", "wire-mismatch", "segment seq+%d len %d: byte at stream offset %d is %#02x on the wire but the application wrote %#02x there (a retransmission carrying the wrong bytes for its sequence number)", seq-x.sIss, n, off, t.Payload[i], x.wrote[off])
+				break
+			}
+		}
+	}
+	// --- C04 send side: within the offered window and MSS/MTU
+	if x.has('w') && n > 0 {
+		end := seq + uint32(n)
+		if x.haveAdv && ref.SeqLT(x.maxEdge, end) {
+			x.fail("C04", "beyond-window", "beyond-peer-window", "segment seq+%d len %d ends %d bytes beyond the right edge the peer has offered (ack+%d, window edge +%d)", seq-x.sIss, n, end-x.maxEdge, x.advAck-x.sIss, x.maxEdge-x.sIss)
+		}
+		if lim := x.mssLimit(len(t.RawOpts)); n > lim {
+			x.fail("C04", "oversized-segment", "oversized-segment", "segment payload %d exceeds what the peer's MSS (%d) / MTU %d allow with %d option bytes (%d)", n, x.cfg.PeerMSS, x.cfg.MTU, len(t.RawOpts), lim)
+		}
+		if x.pmtu > 0 && len(x.sent) > x.ptbAt+1 {
+			hdr := 20
+			if x.cfg.V6 {
+				hdr = 40
+			}
+			if d.TotLen > x.pmtu && hdr > 0 {
+				x.fail("C04", "exceeds-path-mtu", "exceeds-path-mtu", "packet of %d bytes sent after ICMP fragmentation-needed reported next-hop MTU %d", d.TotLen, x.pmtu)
+			}
+		}
+	}
+	// --- C05 bookkeeping
+	rtx := false
+	for _, s := range x.sent {
+		if s.n > 0 && s.seq == seq {
+			rtx = true
+		}
+	}
+	if n > 0 {
+		if !x.firstAckDelivered && !rtx {
+			x.dataSentBeforeFirstAck++
+			if x.has('r') && x.dataSentBeforeFirstAck > 10 {
+				x.fail("C05", "initial-window", "initial-window", "%d data segments sent before the first ACK was delivered (limit 10)", x.dataSentBeforeFirstAck)
+			}
+		}
+		if x.has('r') {
+			x.checkRecovery(seq, n, d.F.At, rtx)
+		}
+		x.sent = append(x.sent, sentSeg{seq: seq, n: n, at: d.F.At, flags: t.Flags, rtx: rtx})
+	}
+	// reference receiver
+	if t.Flags&ref.FIN != 0 && seq+uint32(n) == x.rcvNxt+uint32(boolInt(seq == x.rcvNxt)*n) {
+		// handled below once data is in order
+	}
+	if n > 0 {
+		if ref.SeqLEQ(seq, x.rcvNxt) && ref.SeqLT(x.rcvNxt, seq+uint32(n)) {
+			skip := x.rcvNxt - seq
+			x.recon = append(x.recon, t.Payload[skip:]...)
+			x.rcvNxt = seq + uint32(n)
+			// pull buffered segments
+			for {
+				moved := false
+				for s, b := range x.ooo {
+					if ref.SeqLEQ(s, x.rcvNxt) && ref.SeqLT(x.rcvNxt, s+uint32(len(b))) {
+						x.recon = append(x.recon, b[x.rcvNxt-s:]...)
+						x.rcvNxt = s + uint32(len(b))
+						delete(x.ooo, s)
+						moved = true
+					} else if ref.SeqLEQ(s+uint32(len(b)), x.rcvNxt) {
+						delete(x.ooo, s)
+					}
+				}
+				if !moved {
+					break
+				}
+			}
+		} else if ref.SeqLT(x.rcvNxt, seq) {
+			x.ooo[seq] = append([]byte(nil), t.Payload...)
+		}
+	}
+	if t.Flags&ref.FIN != 0 && seq+uint32(n) == x.rcvNxt {
+		x.finSeen = true
+		x.rcvNxt++
+	}
+	if x.has('s') && !bytes.HasPrefix(x.wrote, x.recon) {
+		x.fail("C01", "peer-stream-mismatch", "peer-stream-mismatch", "the stream the peer reconstructs (%d bytes) is not a prefix of what the application wrote (%d bytes)", len(x.recon), len(x.wrote))
+	}
+}
+
+func boolInt(b bool) int {
+	if b {
+		return 1
+	}
+	return 0
+}
+
+func (x *rawRun) sIssPeerBase() uint32 { return x.cfg.PeerISS }
+
+// sackBlocks renders the peer's out-of-order store.
+func (x *rawRun) sackBlocks() []ref.SACKBlock {
+	var bl []ref.SACKBlock
+	for s, b := range x.ooo {
+		bl = append(bl, ref.SACKBlock{Start: s, End: s + uint32(len(b))})
+	}
+	sort.Slice(bl, func(i, j int) bool { return ref.SeqLT(bl[i].Start, bl[j].Start) })
+	if len(bl) > 3 {
+		bl = bl[:3]
+	}
+	return bl
+}
+
+// checkRecovery: C05 clauses (2) and (4) at every emission of a data segment.
+func (x *rawRun) checkRecovery(seq uint32, n int, at time.Duration, rtx bool) {
+	if rtx {
+		// previous transmission of this very segment
+		var prev *sentSeg
+		for i := range x.sent {
+			if x.sent[i].seq == seq && x.sent[i].n > 0 {
+				prev = &x.sent[i]
+			}
+		}
+		fast := x.dupForUna[seq] >= 3 && seq == x.advAck
+		if prev != nil && !fast && at-prev.at < 200*time.Millisecond {
+			key := "rto-too-early"
+			if prev.rtx && x.dupForUna[seq] >= 3 {
+				key = "rto-too-early-after-fast-retransmit"
+			}
+			x.fail("C05", "early-retransmission", key, "segment seq+%d retransmitted by timeout %v after its previous transmission (minimum 200ms); duplicate ACKs seen for it: %d", seq-x.sIss, at-prev.at, x.dupForUna[seq])
+		}
+	}
+	// (4) Reno: segments in flight <= 10 + segments acked + dup acks delivered
+	if !x.cfg.Cubic {
+		inflight := 0
+		seen := map[uint32]bool{}
+		for _, s := range x.sent {
+			if s.n > 0 && !seen[s.seq] && ref.SeqLT(x.advAck, s.seq+uint32(s.n)) {
+				seen[s.seq] = true
+				inflight++
+			}
+		}
+		if !seen[seq] {
+			inflight++
+		}
+		limit := 10 + x.segsAcked + x.dupAcksDelivered
+		if inflight > limit {
+			x.fail("C05", "cwnd-exceeded", "cwnd-exceeded", "%d segments in flight after sending seq+%d, limit is 10 + %d acknowledged + %d duplicate ACKs = %d", inflight, seq-x.sIss, x.segsAcked, x.dupAcksDelivered, limit)
+		}
+	}
+}
+
+// ---------- menu ----------
+
+func (x *rawRun) appCalls() []action {
+	var acts []action
+	if x.ep == nil {
+		return nil
+	}
+	sk := &Sock{EP: x.ep}
+	st := tcp.VerifDump(x.ep)
+	if st.State == 4 && len(x.chunks) > 0 && sk.Writable() && !x.shut {
+		acts = append(acts, action{name: fmt.Sprintf("S.write(%d)", len(x.chunks[0])), do: func() {
+			c := x.chunks[0]
+			// the bytes are part of the stream the moment Write may put them on the wire
+			before := len(x.wrote)
+			x.wrote = append(x.wrote, c...)
+			n, _, err := x.ep.Write(tcpip.SlicePayload(append([]byte(nil), c...)), tcpip.WriteOptions{})
+			x.wrote = x.wrote[:before+int(n)]
+			if int(n) == len(c) {
+				x.chunks = x.chunks[1:]
+			} else {
+				x.chunks[0] = c[n:]
+			}
+			_ = err
+		}})
+	}
+	if (st.State >= 4) && sk.Readable() && !x.eof && x.readErr == "" && x.cfg.Read == "eager" {
+		acts = append(acts, action{name: "S.read", do: x.doRead})
+	}
+	if x.cfg.Close == "shut" && len(x.chunks) == 0 && st.State == 4 && !x.shut {
+		acts = append(acts, action{name: "S.shutdown(write)", do: func() { x.shut = true; x.ep.Shutdown(tcpip.ShutdownWrite) }})
+	}
+	return acts
+}
+
+func (x *rawRun) doRead() {
+	v, _, err := x.ep.Read(nil)
+	switch err {
+	case nil:
+		x.got = append(x.got, v...)
+	case tcpip.ErrWouldBlock:
+	case tcpip.ErrClosedForReceive:
+		x.eof = true
+	default:
+		x.readErr = err.String()
+	}
+}
+
+func (x *rawRun) windowMenu() []int {
+	m := x.cfg.PeerMSS
+	if m <= 0 {
+		m = 536
+	}
+	return []int{0, 1, m - 1, m, 3 * m, 65535}
+}
+
+// answer builds the peer's default reaction to a delivered data/FIN segment and its deviations.
+func (x *rawRun) deliverMenu(d *Decoded, f *Frame) []action {
+	t := d.TCP
+	name := x.segName(t)
+	var m []action
+	wnd := x.cfg.PeerWnd
+	process := func() { x.onStackFrame(d) }
+	ackNow := func(ack uint32, w int) func() {
+		return func() { x.sendAck(ack, w, x.sackBlocks()) }
+	}
+	later := func(nm string, send func()) {
+		if x.cfg.RTTms > 0 {
+			x.pending = append(x.pending, pendingAck{due: vtime.Elapsed() + time.Duration(x.cfg.RTTms)*time.Millisecond, send: send, name: nm})
+		} else {
+			send()
+		}
+	}
+	hasData := t != nil && (len(t.Payload) > 0 || t.Flags&ref.FIN != 0)
+	if !hasData {
+		m = append(m, action{name: "peer gets " + name, do: process})
+		return m
+	}
+	if x.silentLeft > 0 {
+		m = append(m, action{name: "peer ignores (silent) " + name, do: func() {}})
+		return m
+	}
+	m = append(m, action{name: "peer gets " + name + ", acks all", do: func() {
+		process()
+		later("ack", ackNow(x.rcvNxt, wnd))
+	}})
+	n := len(t.Payload)
+	if x.dev('l') {
+		m = append(m, action{name: "peer never gets " + name, cost: 1, do: func() {}})
+	}
+	if x.dev('h') {
+		m = append(m, action{name: "peer gets " + name + ", withholds ack", cost: 1, do: process})
+	}
+	if x.dev('k') && n > 1 {
+		m = append(m, action{name: "peer gets " + name + ", acks up to last byte-1", cost: 1, do: func() {
+			process()
+			if x.rcvNxt == t.Seq+uint32(n) {
+				later("ack-1", ackNow(x.rcvNxt-1, wnd))
+			} else {
+				later("ack", ackNow(x.rcvNxt, wnd))
+			}
+		}})
+		if n > 2 {
+			m = append(m, action{name: "peer gets " + name + ", acks mid-segment", cost: 1, do: func() {
+				process()
+				if x.rcvNxt == t.Seq+uint32(n) {
+					later("ack-mid", ackNow(t.Seq+uint32(n/2), wnd))
+				} else {
+					later("ack", ackNow(x.rcvNxt, wnd))
+				}
+			}})
+		}
+	}
+	if x.dev('w') {
+		for _, w := range x.windowMenu() {
+			w := w
+			if w == wnd {
+				continue
+			}
+			m = append(m, action{name: fmt.Sprintf("peer gets %s, acks all with window %d", name, w), cost: 1, do: func() {
+				process()
+				later("ack-w", ackNow(x.rcvNxt, w))
+			}})
+		}
+	}
+	if x.dev('p') && x.cfg.PTB > 0 && !x.ptbSent && n > 0 && !x.cfg.V6 {
+		m = append(m, action{name: fmt.Sprintf("ICMP fragmentation-needed(mtu %d) for %s", x.cfg.PTB, name), cost: 1, do: func() {
+			x.ptbSent = true
+			x.ptbAt = len(x.sent)
+			q := f.Data
+			if len(q) > 28 {
+				q = q[:28]
+			}
+			x.r.InjectIP(ref.ProtoICMP, ref.BuildICMPv4Error(3, 4, uint32(x.cfg.PTB), q))
+			x.pmtu = x.cfg.PTB
+		}})
+	}
+	return m
+}
+
+func (x *rawRun) segName(t *ref.TCP) string {
+	if t == nil {
+		return "non-tcp"
+	}
+	fl := ""
+	for i, n := range []string{"F", "S", "R", "P", "A"} {
+		if t.Flags&(1<<uint(i)) != 0 {
+			fl += n
+		}
+	}
+	return fmt.Sprintf("[%s seq+%d ack+%d len%d win%d]", fl, t.Seq-x.sIss, t.Ack-x.cfg.PeerISS, len(t.Payload), t.Window)
+}
+
+// peerSend sends peer data segment i (offset/len into pData), with optional shift.
+func (x *rawRun) peerSendData(off, n int, fin bool) {
+	if off+n > len(x.pData) {
+		n = len(x.pData) - off
+	}
+	flags := uint8(ref.ACK | ref.PSH)
+	if fin {
+		flags |= ref.FIN
+	}
+	x.r.InjectIP(ref.ProtoTCP, ref.BuildTCP(peerPort, x.sPort, x.cfg.PeerISS+1+uint32(off), x.rcvNxt, flags, uint16(x.cfg.PeerWnd), x.segOpts(nil), x.pData[off:off+n], x.r.pAddr, x.r.sAddr))
+}
+
+func (x *rawRun) menu() []action {
+	var m []action
+	fl := x.r.w.InFlight()
+	apps := x.appCalls()
+	timers := vtime.Pending()
+	horizon := vtime.Elapsed() > 15*time.Minute
+	// delayed peer answers that are due come first (time order)
+	if len(x.pending) > 0 && (len(timers) == 0 || x.pending[0].due <= vtime.Elapsed()+timers[0]) && len(fl) == 0 {
+		p := x.pending[0]
+		m = append(m, action{name: fmt.Sprintf("delayed %s arrives (t=%v)", p.name, p.due), do: func() {
+			if p.due > vtime.Elapsed() {
+				vtime.Advance(p.due - vtime.Elapsed())
+			}
+			x.pending = x.pending[1:]
+			p.send()
+		}})
+		return m
+	}
+	switch {
+	case len(fl) > 0:
+		f := fl[0]
+		d, _ := x.r.mon.Check(f, []tcpip.Address{addrA4, addrA6})
+		if _, err := DecodeFrame(f); err != nil && x.r.MonErr == nil {
+			x.r.MonErr = fmt.Errorf("frame #%d: %v (bytes %x)", f.Seq, err, f.Data)
+		}
+		dm := x.deliverMenu(d, f)
+		for i := range dm {
+			do := dm[i].do
+			dm[i].do = func() { x.r.w.Take(f); do() }
+		}
+		m = append(m, dm...)
+		if x.dev('a') && len(apps) > 0 {
+			a := apps[0]
+			m = append(m, action{name: "app-first " + a.name, cost: 1, do: a.do})
+		}
+		if x.dev('t') && len(timers) > 0 && !horizon {
+			m = append(m, action{name: "early timer", cost: 1, do: func() { x.earlyTimer = true; x.timeoutsFired++; vtime.FireNext() }})
+		}
+	case len(apps) > 0:
+		m = append(m, apps[0])
+	case len(x.pSegs) > 0 && x.established:
+		s := x.pSegs[0]
+		last := len(x.pSegs) == 1
+		m = append(m, action{name: fmt.Sprintf("peer sends data [%d,+%d)", s[0], s[1]), do: func() { x.pSegs = x.pSegs[1:]; x.peerSendData(s[0], s[1], false) }})
+		if x.dev('o') {
+			if !last {
+				nx := x.pSegs[1]
+				m = append(m, action{name: fmt.Sprintf("peer sends [%d,+%d) before [%d,+%d)", nx[0], nx[1], s[0], s[1]), cost: 1, do: func() {
+					x.pSegs[0], x.pSegs[1] = x.pSegs[1], x.pSegs[0]
+					x.pSegs = x.pSegs[1:]
+					x.peerSendData(nx[0], nx[1], false)
+				}})
+			}
+			m = append(m, action{name: fmt.Sprintf("peer sends [%d,+%d) twice", s[0], s[1]), cost: 1, do: func() {
+				x.pSegs = x.pSegs[1:]
+				x.peerSendData(s[0], s[1], false)
+				x.peerSendData(s[0], s[1], false)
+			}})
+			if s[0] >= 3 {
+				m = append(m, action{name: fmt.Sprintf("peer sends overlapping [%d,+%d)", s[0]-3, s[1]+3), cost: 1, do: func() {
+					x.pSegs = x.pSegs[1:]
+					x.peerSendData(s[0]-3, s[1]+3, false)
+				}})
+			}
+			if s[1] > 4 {
+				m = append(m, action{name: fmt.Sprintf("peer sends [%d,+%d) in two pieces, second first", s[0], s[1]), cost: 1, do: func() {
+					x.pSegs = x.pSegs[1:]
+					h := s[1] / 2
+					x.peerSendData(s[0]+h, s[1]-h, false)
+					x.peerSendData(s[0], h, false)
+				}})
+			}
+			// data beyond the advertised window must never be delivered
+			m = append(m, action{name: "peer sends a segment far beyond the advertised window", cost: 1, do: func() {
+				far := x.sEdge + 1000
+				x.r.InjectIP(ref.ProtoTCP, ref.BuildTCP(peerPort, x.sPort, far, x.rcvNxt, ref.ACK|ref.PSH, uint16(x.cfg.PeerWnd), x.segOpts(nil), []byte("XXXXXXXX"), x.r.pAddr, x.r.sAddr))
+			}})
+		}
+	case len(timers) > 0 && !horizon:
+		m = append(m, action{name: fmt.Sprintf("timer(+%v)", timers[0]), do: func() {
+			x.timeoutsFired++
+			if x.silentLeft > 0 {
+				x.silentLeft--
+			}
+			vtime.FireNext()
+		}})
+	}
+	return m
+}
+
+func (x *rawRun) afterStep() {
+	if x.r.MonErr != nil && x.has('m') {
+		x.fail("C06", "malformed-frame", "frame:"+keyOf(x.r.MonErr), "%v", x.r.MonErr)
+	}
+	if x.has('s') && !bytes.HasPrefix(x.pData, x.got) {
+		i := 0
+		for i < len(x.got) && i < len(x.pData) && x.got[i] == x.pData[i] {
+			i++
+		}
+		x.fail("C01", "stream-mismatch", "stream-mismatch-rx", "bytes read by the application are not a prefix of the bytes the peer sent: first difference at offset %d (read %d, sent %d)", i, len(x.got), len(x.pData))
+	}
+	if x.ep != nil {
+		st := tcp.VerifDump(x.ep)
+		x.states = append(x.states, engine.Hash(st, len(x.r.w.InFlight()), len(x.chunks), len(x.got), len(x.pSegs), vtime.Pending()))
+	}
+}
+
+func (x *rawRun) teardown() {
+	if x.ep != nil {
+		x.ep.Close()
+	}
+	if x.lst != nil {
+		x.lst.Close()
+	}
+	x.r.w.Settle()
+	for i := 0; i < 50 && vtime.FireNext(); i++ {
+		x.r.w.Settle()
+	}
+	x.r.n.S.RemoveAddress(1, addrA4)
+	x.r.n.S.RemoveAddress(1, addrA6)
+	x.r.w.Settle()
+}
+
+// RunRaw executes one environment history of the raw-peer transfer scenario.
+func RunRaw(cfg RawCfg, prefix []int) (res *engine.EnvRun) {
+	x := newRawRun(cfg, prefix)
+	res = &engine.EnvRun{C: x.ch}
+	defer func() {
+		if e := recover(); e != nil {
+			x.viol = &engine.Violation{Property: "C07", Kind: "panic", Key: "panic:" + keyOf(fmt.Errorf("%v", e)), Detail: fmt.Sprintf("panic in the stack during %v: %v", last(x.trace), e)}
+			res.Violation = x.viol
+			res.Trace = x.trace
+		}
+	}()
+	if x.handshake() {
+		const stepCap = 3000
+		for x.viol == nil {
+			m := x.menu()
+			if len(m) == 0 {
+				break
+			}
+			if res.Steps >= stepCap {
+				x.caps = append(x.caps, "step cap 3000 reached")
+				break
+			}
+			costs := make([]int, len(m))
+			for i := range m {
+				costs[i] = m[i].cost
+			}
+			c := x.ch.Choose(len(m), costs)
+			x.trace = append(x.trace, m[c].name)
+			m[c].do()
+			x.r.w.Settle()
+			// final drain of reads when everything else is idle
+			res.Steps++
+			x.afterStep()
+		}
+		if x.viol == nil {
+			x.atEnd()
+		}
+	}
+	res.Violation = x.viol
+	res.Trace = x.trace
+	res.States = x.states
+	res.Caps = x.caps
+	res.Outcome = engine.Hash(len(x.got), len(x.recon), x.eof, x.readErr, len(x.sent), x.finSeen, len(x.r.w.All))
+	x.teardown()
+	return res
+}
+
+// atEnd: end-of-run oracles of the raw scenario.
+func (x *rawRun) atEnd() {
+	// whatever arrived in order at the stack and was inside its window must be readable (C04)
+	if x.has('w') && x.cfg.Read == "eager" && x.readErr == "" {
+		// everything the peer sent in order has been acknowledged => it must have been read
+		ackedOff := int(x.pAcked - x.cfg.PeerISS - 1)
+		if x.pAcked != 0 && ackedOff > len(x.got) && ackedOff <= len(x.pData) {
+			x.fail("C04", "acked-not-delivered", "acked-not-delivered", "the stack acknowledged %d bytes of peer data but the application could read only %d", ackedOff, len(x.got))
+		}
+	}
+	if x.has('s') && bytes.Contains(x.got, []byte("XXXXXXXX")) {
+		x.fail("C04", "beyond-window-delivered", "beyond-window-delivered", "data sent wholly beyond the advertised window reached the application")
+	}
+}
+
+// ---------- job plumbing shared by C01(b), C04, C05 ----------
+
+func rawJobsC01(tier string) []string {
+	var jobs []string
+	add := func(s string, shards int) {
+		for i := 0; i < shards; i++ {
+			jobs = append(jobs, fmt.Sprintf("raw:%d/%d:%s", i, shards, s))
+		}
+	}
+	base := "or=s,devs=kwhlo"
+	add(base+",mss=24,w=72,pd=3x20,b=1", 2)
+	add(base+",mss=24,w=2x36,pd=3x20,ts=1,b=1", 2)
+	add(base+",mss=24,w=72,pd=3x20,psack=1,sack=1,active=0,b=1", 2)
+	add(base+",mss=24,w=48,iss=4294967270,piss=2147483640,pd=2x20,b=1", 2)
+	if tier == "thorough" {
+		add(base+",mss=24,w=72,pd=3x20,v6=1,mtu=1280,b=1", 2)
+		add(base+",mss=24,w=48,pd=2x20,b=2", 16)
+		add(base+",mss=24,w=48,pd=2x20,ts=1,psack=1,sack=1,b=2", 16)
+		add(base+",mss=24,w=48,iss=2147483640,piss=4294967280,pd=2x20,b=2", 16)
+		add(base+",mss=100,w=3x100,pd=,b=2,ws=2", 16)
+	} else {
+		add(base+",mss=24,w=48,pd=20,b=2", 8)
+	}
+	return jobs
+}
+
+func rawRunJob(r *engine.Result, job string, deadline time.Time) *engine.Result {
+	var i, n int
+	parts := strings.SplitN(job, ":", 3)
+	fmt.Sscanf(parts[1], "%d/%d", &i, &n)
+	cfg := ParseRawCfg(parts[2])
+	st := engine.ExploreEnv(job, func(prefix []int) *engine.EnvRun { return RunRaw(cfg, prefix) }, engine.EnvCfg{Budget: cfg.Budget, Deadline: deadline, ShardI: i, ShardN: n})
+	st.Into(r)
+	r.Bound = fmt.Sprintf("deviation budget %d", cfg.Budget)
+	return r
+}
+
+func rawReplay(er engine.EnvReplay) *engine.Violation {
+	parts := strings.SplitN(er.Job, ":", 3)
+	return RunRaw(ParseRawCfg(parts[2]), er.Choices).Violation
+}
